@@ -75,13 +75,22 @@ func matchPat(pat, name string) bool {
 }
 
 func (e *FEnc) atCallClauses(name string) []*Clause {
-	if e.fc == nil {
-		return nil
-	}
 	var out []*Clause
-	for _, c := range e.fc.Clauses {
-		if c.Kind == "atcall" && matchPat(c.Pat, name) {
-			out = append(out, c)
+	if e.fc != nil {
+		for _, c := range e.fc.Clauses {
+			if c.Kind == "atcall" && matchPat(c.Pat, name) {
+				out = append(out, c)
+			}
+		}
+	}
+	// the call-site clauses of a function also govern the function literals written inside it
+	for par := e.fn.Parent(); par != nil; par = par.Parent() {
+		if pfc := e.eng.contractOf(par); pfc != nil {
+			for _, c := range pfc.Clauses {
+				if c.Kind == "atcall" && matchPat(c.Pat, name) {
+					out = append(out, c)
+				}
+			}
 		}
 	}
 	return out
